@@ -14,6 +14,7 @@ F(name, ok) == IF ok THEN <<>> ELSE <<name>>
 (* "read" events: the reference outcome is printed; trees are compared by the harness after numeral
    canonicalisation (int(), float() are trusted to Python) *)
 DumpFails(e) == F("dump-target-differs", e.written_digest = e.text_digest) \o F("dump-length", e.returned = e.length)
-Verdict == PrintT(ToJson(IF E.ev = "read" THEN [i |-> i, o |-> Read("any", E.bytes), whole |-> WholeDecodable(E.bytes)]
+Verdict == PrintT(ToJson(IF E.ev = "read" THEN [i |-> i, o |-> Read("any", E.bytes), whole |-> WholeDecodable(E.bytes),
+                                                   strict |-> [d \in {"PVL", "ISIS"} |-> Load(d, DecodablePrefix(E.bytes))]]
                          ELSE [i |-> i, fails |-> DumpFails(E)]))
 =============================================================================
